@@ -109,6 +109,18 @@ def scale_cases(draw):
         f = 10.0 ** draw(st.floats(-3.0, 3.0))
     g["factor"] = f
     g["pow2"] = pow2
+    if draw(st.integers(0, 5)) == 0:
+        # a tiny tau next to sigmas of its own order: tau^2 runs through 1e-18 .. 1e-7 in absolute terms over the drawn units, so an absolute
+        # constant compared with it (an epsilon, "tau is practically zero") changes sides between the two presentations, and the inflation
+        # sqrt(sigma^2 + tau^2) matters (tau / sigma between 1e-3 and 0.5)
+        beta = g["cfg"]["beta"]
+        tau = 10.0 ** draw(st.floats(-9.0, -4.0)) * beta
+        g["cfg"]["tau"] = tau
+        g["call"].pop("tau", None)
+        for t in g["teams"]:
+            for p in t:
+                p[1] = min(10.0 * beta, max(1e-4 * beta, tau * 10.0 ** draw(st.floats(0.3, 3.0))))
+        g["meta"]["tiny_tau"] = True
     return g
 
 
